@@ -2,7 +2,7 @@
    Definitions only; lemmas and theorems are in IdsProofs.v.
 
    Modelled code (cassis/cas.py, cassis/xmi.py, cassis/json.py of /repo at HEAD):
-     IdGenerator.generate_id                      -> gen_id / gen_num (return the counter, then add 1)
+     IdGenerator.generate_id                      -> next_id / next_num are returned, then incremented (assign, create_view)
      Cas.__init__                                 -> init_empty (sofa of _InitialView takes id 1 and sofaNum 1)
      Cas.create_view / _add_view (no explicit id) -> create_view (ValueError when the name exists)
      IdGenerator.reserve_id                       -> reserve (next := max next (k+1))
